@@ -1,11 +1,12 @@
-\* the write pipeline with one fault at any step boundary (as coded: AtomicWrite = FALSE, ParseInWrite = FALSE)
+\* the write pipeline with one fault at any step boundary (as coded: AtomicWrite = FALSE, ParseInWrite = TRUE)
 SPECIFICATION Spec
 CONSTANTS
   Order <- OrderDef
   HasExt <- HasExtDef
   AtomicWrite = FALSE
-  ParseInWrite = FALSE
+  ParseInWrite = TRUE
 INVARIANT Atomic
+INVARIANT NoGarbage
 INVARIANT NoDangling
 INVARIANT PersistFirst
 INVARIANT AlwaysPopped
